@@ -148,6 +148,7 @@ def run_plan(rng, quick_len):
         plan.append({"exact": exact, "grid": None})
         plan.append({"exact": exact, "grid": rng.choice(["list", "tuple", "array"])})
     plan.append({"exact": True, "grid": None})
+    plan.append({"exact": rng.random() < 0.7, "grid": None, "parallel": True})      # the dask route, run in-process
     plan.append({"exact": False, "grid": None, "pre_tau": rng.choice([0.25, 1.0, 4.0])})
     plan.append({"exact": False, "grid": rng.choice(["list", "array"]), "epsilon": rng.choice([0.1, 0.3])})
     plan.append({"exact": True, "grid": "array", "long": True})     # grid far past the end of the dynamics
@@ -185,7 +186,12 @@ def perform(m, defn, theta, x0, plan, rng, seed, max_steps=250):
             signal.signal(signal.SIGALRM, _alarm)
             signal.alarm(20)
             try:
-                out = m.solve_stochast(tin, 1, exact=p["exact"], full_output=True)
+                if p.get("parallel"):
+                    import dask
+                    with dask.config.set(scheduler="synchronous"):
+                        out = m.solve_stochast(tin, 1, parallel=True, exact=p["exact"], full_output=True)
+                else:
+                    out = m.solve_stochast(tin, 1, exact=p["exact"], full_output=True)
                 rec_run["out"] = out
                 rec_run["raised"] = None
             except Timeout:
@@ -236,6 +242,9 @@ def to_trace_run(run, defn):
         rec["attempts"] = rec["attempts"][:400]
         if not rec["attempts"]:
             return None, None, "too slow to judge and nothing recorded"
+    # what the USER asked for (the option handed to solve_stochast), not what reached the stepper
+    want_exact = bool(run["plan"]["exact"])
+    parallel = bool(run["plan"].get("parallel"))
     times = {rec["t0"], rec["finalT"]}
     if run["grid"]:
         times |= set(run["grid"])
@@ -295,8 +304,8 @@ def to_trace_run(run, defn):
         for e in evs:
             if "_t" in e:
                 e["tr"] = rank[e.pop("_t")]
-        return {"exact": rec["exact"], "x0": _ints(rec["x0"]), "t0r": rank[rec["t0"]], "horizonr": rank[rec["finalT"]],
-                "checkdraws": bool(checkdraws and rec["exact"]), "events": evs, "truncated": True}, None, None
+        return {"exact": want_exact, "x0": _ints(rec["x0"]), "t0r": rank[rec["t0"]], "horizonr": rank[rec["finalT"]],
+                "checkdraws": bool(checkdraws and want_exact and not parallel), "events": evs, "truncated": True}, None, None
     evs.append({"ev": "End"})
     out = run["out"]
     if run["grid"]:
@@ -308,7 +317,7 @@ def to_trace_run(run, defn):
         rows = np.asarray(X, float)
         if rows.ndim != 2:
             return None, {"what": "gridded output is not a table", "detail": str(rows.shape)}, None
-        if rec["exact"]:
+        if want_exact:
             ri = [_ints(r) for r in rows]
             ci = [_ints(c) for c in np.asarray(J, float)] if len(J) else []
             if any(r is None for r in ri) or any(c is None for c in ci):
@@ -332,8 +341,8 @@ def to_trace_run(run, defn):
         if "_t" in e:
             e["tr"] = rank[e.pop("_t")]
     x0 = _ints(rec["x0"])
-    tr = {"exact": rec["exact"], "x0": x0, "t0r": rank[rec["t0"]], "horizonr": rank[rec["finalT"]],
-          "checkdraws": bool(checkdraws and rec["exact"]), "events": evs}
+    tr = {"exact": want_exact, "x0": x0, "t0r": rank[rec["t0"]], "horizonr": rank[rec["finalT"]],
+          "checkdraws": bool(checkdraws and want_exact and not parallel), "events": evs}
     return tr, None, None
 
 
